@@ -24,8 +24,10 @@ Init == signed = [i \in I |-> {}]
 Request(i, d) == /\ Other(d) \notin signed[i]
                  /\ signed' = [signed EXCEPT ![i] = @ \cup {d}]
 RequestOld(i) == UNCHANGED signed
+RequestFault(i) == UNCHANGED signed        \* FaultMode = "closed": a request that meets a storage fault changes nothing
 Next == \/ \E i \in I, d \in Duties : Request(i, d)
         \/ \E i \in I : RequestOld(i)
+        \/ \E i \in I : RequestFault(i)
 Spec == Init /\ [][Next]_signed
 
 Partials(d) == {i \in I : d \in signed[i]}
@@ -51,7 +53,9 @@ LEMMA StepInv == IndInv /\ [Next]_signed => IndInv'
   <2> QED BY <2>1, <2>2 DEF IndInv
 <1>3. ASSUME NEW i \in I, RequestOld(i) PROVE IndInv'
   BY <1>3 DEF RequestOld, IndInv
-<1> QED BY <1>1, <1>2, <1>3 DEF Next
+<1>4. ASSUME NEW i \in I, RequestFault(i) PROVE IndInv'
+  BY <1>4 DEF RequestFault, IndInv
+<1> QED BY <1>1, <1>2, <1>3, <1>4 DEF Next
 
 \* the counting argument: disjoint subsets of 1..N cannot both have T > N/2 elements
 LEMMA Quorum == IndInv => NotBothThreshold
